@@ -17,7 +17,10 @@ EXPLANATION = (
   "include test, creates the row reference with the 1-based position the row is about to take, "
   "and that dumps() adds every top-level item; (R3) that the parent-reference column holds each "
   "row's own parent and is added whenever *some* row of the table has a parent (the test scans "
-  "all rows, not particular ones). Guards are read from the CFG (if/else polarity, early "
+  "all rows, not particular ones); (R4) that no function of the module writes into the "
+  "module-level default option containers, directly, through a local alias or through a "
+  "parameter whose default value they are (one import's filters would leak into the next). "
+  "Guards are read from the CFG (if/else polarity, early "
   "continue/return, `and` chains are equivalent), locals are compared by the value they stand "
   "for, private helpers are followed. Not decided: placement of every scalar, type inference of "
   "columns, the include/exclude prefix semantics.")
@@ -32,6 +35,7 @@ def check(run, repo, tier):
   r1_equal_length(run, w)
   r2_add_row(run, w)
   r3_parent_column(run, w)
+  r4_shared_defaults(run, w)
 
 
 def _returns(fn):
@@ -497,6 +501,34 @@ def r3_parent_column(run, w):
           scans.append((a, pol))
       if isinstance(y, ast.Subscript) and text(y.value) == rows:
         partial.append(a)
+  # a flag / value found by an explicit search loop: `ref = None; for r in rows: if r.parent:
+  # ref = r.parent.ref; break` -- a truthy value can only come from the binding inside the loop
+  for (a, pol) in facts:
+    if not (pol and a.isidentifier()):
+      continue
+    at = v.node_of(site).id
+    for d in v.reaching(a, at):
+      val = v._plain_value(a, d) if d != v.ENTRY else None
+      if val is None:
+        continue
+      if isinstance(val, ast.Constant) and not val.value:
+        continue                       # None / False / 0: cannot make the test true
+      if any(isinstance(y, ast.Subscript) and text(y.value) == rows for y in ast.walk(val)):
+        partial.append(text(val))
+        continue
+      loops = [l for l in v.enclosing_loops(dt.cfg.nodes[d].stmt) if isinstance(l, ast.For)]
+      if len(loops) != 1 or not isinstance(loops[0].target, ast.Name) or \
+          v.t(loops[0].iter) != rows:
+        continue
+      l = loops[0]
+      tm = v.loop_map(l)
+      lf = v.cfg_facts(d, start=tm.head, mapping=tm)
+      # nothing ends the search before a row with a parent is found
+      early = [x.id for x in dt.cfg.nodes if x.kind in ("break", "return") and
+               any(y is x.stmt for b in l.body for y in ast.walk(b)) and
+               dt.cfg.path(tm.head, {x.id}, removed={d}, after=True) is not None]
+      if lf == {("_v0.parent", True)} and not early:
+        scans.append((a, True))
   wit = None
   if partial:
     wit = "decided from particular rows only: %s" % partial[0]
@@ -508,6 +540,104 @@ def r3_parent_column(run, w):
          "a table whose first row came from a nested object but whose later rows came from an "
          "array still gets its reference to the parent table: the test scans all rows", ok,
          witness=wit, fi=dt.fi, node=site)
+
+
+def r4_shared_defaults(run, w):
+  """Module-level option containers (DEFAULT_PARSE_OPTIONS, SCHEMA ...) are shared by every
+  import of the process: a function that writes into one -- directly, through a local alias, or
+  through a parameter whose default value it is -- leaks one import's includes/excludes into the
+  next, which then silently drops tables."""
+  from ..dataflow import MUTATING_METHODS
+  R4 = run.rule("C33-R4", "module-level default option containers are never modified (not "
+                "directly, not through an alias, not through a parameter defaulting to them)",
+                floor=2)
+  mod = w.repo.module(M)
+  shared = {n for n, val in mod.assigns.items() if isinstance(val, (ast.Dict, ast.List, ast.Set))
+            or (isinstance(val, ast.Call) and dotted(val.func) in ("dict", "OrderedDict", "list",
+                                                                   "set"))}
+  if "DEFAULT_PARSE_OPTIONS" not in shared:
+    raise AnalysisError("%s.DEFAULT_PARSE_OPTIONS is not a module-level container any more" % M)
+
+  def root(e):
+    while isinstance(e, (ast.Subscript, ast.Attribute)):
+      e = e.value
+    return e if isinstance(e, ast.Name) else None
+
+  n_checked = 0
+  for fi in sorted((f for f in w.repo.all_functions() if f.module.name == M),
+                   key=lambda f: f.node.lineno):
+    fn = w.fn_of(fi)
+    v = H.View(fn)
+    a = fi.node.args
+    names = [x.arg for x in a.args]
+    defaults = dict(zip(names[len(names) - len(a.defaults):], a.defaults))
+    dflt_params = {p: d.id for p, d in defaults.items()
+                   if isinstance(d, ast.Name) and d.id in shared}
+
+    def denotes_shared(name_node, nid):
+      """module container the Name may stand for at node nid (through local aliases)"""
+      seen = set()
+      work = [(name_node.id, nid)]
+      out = set()
+      while work:
+        nm, at = work.pop()
+        if (nm, at) in seen:
+          continue
+        seen.add((nm, at))
+        defs = v.reaching(nm, at)
+        if not defs:
+          if nm in shared:
+            out.add(nm)
+          continue
+        for d in defs:
+          if d == v.ENTRY:
+            if nm in dflt_params:
+              out.add(dflt_params[nm])
+            continue
+          val = v._plain_value(nm, d)
+          while isinstance(val, ast.IfExp) or (isinstance(val, ast.BoolOp)):
+            # x = a or DEFAULT / x = a if c else DEFAULT: any operand may be the value
+            ops = [val.body, val.orelse] if isinstance(val, ast.IfExp) else list(val.values)
+            for o in ops[1:]:
+              if isinstance(o, ast.Name):
+                work.append((o.id, d))
+            val = ops[0]
+          if isinstance(val, ast.Name):
+            work.append((val.id, d))
+      return out
+
+    writes = []
+    for n in fn.cfg.nodes:
+      for e in (list(n.exprs) + ([n.stmt] if n.kind == "stmt" else [])):
+        for y in walk_no_nested(e):
+          tgt = None
+          if isinstance(y, (ast.Subscript, ast.Attribute)) and \
+              isinstance(y.ctx, (ast.Store, ast.Del)):
+            tgt = root(y)
+          elif isinstance(y, ast.Call) and isinstance(y.func, ast.Attribute) and \
+              y.func.attr in MUTATING_METHODS:
+            tgt = root(y.func.value)
+          elif isinstance(y, ast.AugAssign) and isinstance(y.target, ast.Name):
+            tgt = y.target
+          if tgt is not None:
+            for g in sorted(denotes_shared(tgt, n.id)):
+              writes.append((g, n.stmt, tgt.id))
+    touches = any(isinstance(y, ast.Name) and y.id in shared for y in ast.walk(fi.node)) or \
+        bool(dflt_params)
+    if not touches:
+      continue
+    n_checked += 1
+    wit = None
+    if writes:
+      g, st, via = writes[0]
+      wit = "%s is modified through `%s`: %s" % (g, via, short(st))
+    run.ob(R4, fi.qualname, "no write into %s" % ", ".join(sorted(
+      {y.id for y in ast.walk(fi.node) if isinstance(y, ast.Name) and y.id in shared} |
+      set(dflt_params.values()))), "the shared defaults stay what the module defines: a later "
+           "import without explicit options must not inherit an earlier import's filters",
+           not writes, witness=wit, fi=fi, node=writes[0][1] if writes else None)
+  if n_checked < 2:
+    raise AnalysisError("%s: fewer than 2 functions use the shared default options" % M)
 
 
 def _row_var(fn):
@@ -555,6 +685,11 @@ VARIANTS = [
   ("parent-column-holds-first-parent", J,
    "[row.parent.ref if row.parent else None for row in rows])",
    "[ref for row in rows])", "C33-R3"),
+  ("seeded-options-merged-into-shared-defaults", J, "  tables = Tables(parse_options)\n",
+   "  options = DEFAULT_PARSE_OPTIONS\n  options.update(parse_options)\n"
+   "  tables = Tables(options)\n", "C33-R4"),
+  ("defaults-updated-instead-of-options", J, "    parse_options.update(DEFAULT_PARSE_OPTIONS)",
+   "    DEFAULT_PARSE_OPTIONS.update(parse_options)", "C33-R4"),
   ("nested-ref-of-parent-row", J, "          row.values[k] = val.ref\n",
    "          row.values[k] = row.ref\n", "C33-R2"),
 ]
